@@ -84,6 +84,15 @@ func (p *poller) addConn(c *Conn) error {
 		_ = c.closeWithError(err)
 		return err
 	}
+	// A connection that was closed before it is added (e.g. inside the HTTP
+	// engine's open callback, which runs first) is not opened at all: there
+	// would never be a close notification to balance the open.
+	c.mux.Lock()
+	closed := c.closed
+	c.mux.Unlock()
+	if closed {
+		return net.ErrClosed
+	}
 	c.p = p
 	if c.typ != ConnTypeUDPServer {
 		p.g.onOpen(c)
